@@ -178,16 +178,30 @@ def _val(v):
     return v if (v is None or type(v) in (bool, int, str)) else {"type": type(v).__name__, "repr": repr(v)[:60]}
 
 
+def _tp_obj(tp):
+    """a non-empty tally-pool label as the code meets it in practice: a string built at run time (read from a file,
+    concatenated from tabulator and batch), i.e. a FRESH object for every record -- equal labels are equal, not
+    identical"""
+    if isinstance(tp, str) and tp:
+        return ("pool:" + tp + "_")[:-1]
+    return tp
+
+
+def _tp_back(tp):
+    return tp[5:] if isinstance(tp, str) and tp.startswith("pool:") else tp
+
+
 def canon_cvr(c):
     return {"id": c.id,
             "votes": [[k, [[x, _val(v)] for x, v in d.items()]] for k, d in c.votes.items()],
-            "phantom": _flag(c.phantom), "pool": _flag(c.pool), "tally_pool": c.tally_pool}
+            "phantom": _flag(c.phantom), "pool": _flag(c.pool), "tally_pool": _tp_back(c.tally_pool)}
 
 
 def build_cvr(rec):
     from shangrla.core.Audit import CVR
     votes = {k: dict((x, v) for x, v in d) for k, d in rec["votes"]}
     via = rec.get("via", "ctor")
+    rec = dict(rec, tally_pool=_tp_obj(rec["tally_pool"]))
     if via == "vote" and len(votes) == 1 and not rec["pool"] and rec["tally_pool"] is None:
         (cid, d), = votes.items()
         return CVR.from_vote(d, id=rec["id"], contest_id=cid, phantom=rec["phantom"])
